@@ -15,6 +15,20 @@ Oracle (model-free: python integers/Fractions and scipy only, never the Lean mod
 checks of 'r' and 'n', 'c' against the exact binomial sum, 'p' inverts 'c', mutual consistency of the
 query forms, scalar == broadcast; ksingle = nct.ppf(c, n-1, z_p sqrt n)/sqrt n and its defining
 cdf equation, kdouble's two coverage equations, monotone in p and c, limit n -> oo.
+
+Extension (public entry points, root finders, constants):
+  * translator harness/translate/c20_stats.py -> Generated/C20Stats.lean: constants / switch points / branch and
+    np.broadcast argument orders / effect skeletons of every function, checked by `decide` in Props/C20Api.lean;
+  * stream `api` (exact): order_stats as a whole against Model/OrderStatsApi.lean — `which` strings, absent arguments
+    (None), broadcasting order and shape, python-int / numpy-scalar / array packaging, TypeError / ValueError kinds, the
+    'p' answers against the rational bisection `pQuery` (2^-41), argument arrays unchanged;
+  * streams `ksingle-array`, `kdouble-array`, `getr-loop` (Float): Model/KFactorApi.lean run with the kernel values the
+    implementation itself asked for (stats.norm is wrapped by a recorder during the call); values to 1e-12 / 1e-10 and
+    the number of Newton passes exactly;
+  * oracle items `apicall`, `kcall` (elementwise = scalar calls, shape = numpy's broadcast shape, arguments unchanged,
+    invalid `which` / missing arguments raise), `proot` (sign change within brentq's tolerance, exact arithmetic),
+    `newton` (convergence below the cap; hypotheses and conclusions of newton_monotone_convex), `nctasym`, `kge`
+    (hypotheses / conclusions of ksingle_tendsto, ksingle_ge_normal).
 """
 import json
 import math
@@ -24,10 +38,11 @@ from fractions import Fraction
 
 import numpy as np
 
-from runner import Infra
+from runner import Infra, TieBroken
 
 ID = "C20"
-LEAN_MODULES = ["PyYetiVerif.Props.C20", "PyYetiVerif.Audit.C20"]
+LEAN_MODULES = ["PyYetiVerif.Props.C20", "PyYetiVerif.Props.C20Api", "PyYetiVerif.Props.C20Root", "PyYetiVerif.Props.C20Limit",
+                "PyYetiVerif.Audit.C20"]
 AUDIT_FILE = "PyYetiVerif/Audit/C20.lean"
 THEOREMS = [
     "PyYetiVerif.C20." + n
@@ -36,25 +51,49 @@ THEOREMS = [
         "rank_extremal rank_succ_fails rank_extremal_ge tie_example "
         "n_extremal n_extremal_adjacent n_eq_r n_total confidence_eventually n_exists queries_consistent "
         "ksingle_def ksingle_strictMono_c ksingle_strictMono_p getr_fixed_point getr_strictMono getr_pos "
-        "kdouble_def kdouble_strictMono_c kdouble_strictMono_p"
+        "kdouble_def kdouble_strictMono_c kdouble_strictMono_p "
+        # public entry points (Props/C20Api.lean)
+        "order_stats_dispatch order_stats_dispatch_tie order_stats_absent order_stats_broadcast_r order_stats_broadcast_n "
+        "order_stats_broadcast_p order_stats_broadcast_c order_stats_scalar order_stats_broadcast_readAt "
+        "kfactor_elementwise_ksingle kfactor_elementwise_kdouble arguments_unchanged stats_effects_safe stats_consts_tie stats_dtype_tie "
+        # root finders (Props/C20Root.lean)
+        "tail_strictMono_q bisect_brackets_root p_query_defined_iff p_query_bracket p_query_exists_unique p_query_close "
+        "newton_monotone_convex newton_vector_stops "
+        # large samples (Props/C20Limit.lean)
+        "ksingle_rate ksingle_tendsto ksingle_ge_normal"
     ).split()
 ]
 TRUSTED = [
     "scipy.stats norm/nct/chi2 satisfy KFactor.Spec (strictly increasing cdf, ppf its inverse on (0,1), nct "
     "stochastically increasing in its non-centrality); residuals of the resulting equations are measured every run",
+    "the three added hypotheses, each measured by the oracle on every run: the residual of _getr is concave on R >= 0 "
+    "(tangent inequality; newton_monotone_convex); NctAsym: the nct quantile stays within B_c (1 + |nc|/sqrt df) of nc and "
+    "P(T <= nc) <= 1/2 for nc >= 0 (ksingle_tendsto, ksingle_ge_normal)",
     "scipy.stats.binom.ppf/sf, scipy.special.betainc and brentq+ceil compute the exact-arithmetic quantities of "
     "Model/OrderStats.lean away from ties (|confidence - c| >= 1e-9); measured by exact comparison every run",
     "the continuous extension n -> betainc(r, n-r+1, q) is increasing, so ceil(root) is the least integer meeting c",
+    "brentq returns a point inside a sign-change bracket of width <= xtol + rtol |x| (scipy defaults 2e-12, 4 eps; the "
+    "calls in stats.py pass no tolerances: checked by the translator); the oracle checks the sign change in exact arithmetic",
+    "numpy: np.broadcast iterates in C order over the broadcast shape, `out.flat = list` fills in C order, ufunc calls "
+    "broadcast their arguments; np.asarray of an ndarray returns the same object; the whitelisted numpy/scipy calls of "
+    "harness/translate/c20_stats.py return new objects (the effect skeleton is what arguments_unchanged is about)",
     "Drivers/C20.lean evaluates the polymorphic model at an unreduced-fraction instance; a subsample is re-evaluated "
     "at core Rat (the instance the theorems specialise to) and must agree exactly",
-    "correspondence harness harness/props/c20.py",
+    "correspondence harness harness/props/c20.py, translator harness/translate/c20_stats.py (Python ast, no execution)",
 ]
 RULE = (
     "p and c are short decimals (2-4 digits) read as exact rationals, n in 1..3000 (quick) / 1..40000 (thorough), "
     "r in 1..40; a case is one call of order_stats('r'|'n'|'c') or of ksingle/kdouble/_getr compared with the Lean "
     "model; non-trivial = the answer is not the default (rank >= 1, n > r or the n = r boundary, 0 < conf < 1, "
     "every k-factor case); distinct by (which, p, c, n, r); ties (|confidence - c| < 1e-9 at the decisive integer) "
-    "are skipped and counted"
+    "are skipped and counted.  Entry-point cases (`api`, `ksingle-array`, `kdouble-array`, `getr-loop`): the whole decision "
+    "table (8 `which` strings x 16 subsets of absent arguments) plus random calls whose three read arguments have shapes "
+    "drawn from one broadcast target (rank 0-3, extents 0-4, 12 % made incompatible), 6 % of read arguments absent, the "
+    "asked-for argument given in 25 %, values handed over as python scalars / numpy scalars / 0-d arrays / nested lists / "
+    "tuples / C-, F-ordered and strided arrays; integer arguments as int64, int32, float64, int8, uint8, int16, uint16 arrays "
+    "(every width that holds the values; unsigned only for values >= 1; findings F54/F55); tol of kdouble in {1e-14 .. 1e-3}; non-trivial = "
+    "a value with at least one element comes back; Newton steps within 0.1 % of tol make the pass count undecidable in "
+    "floating point: skipped and counted"
 )
 ASSUMPTIONS = [
     "0 < p < 1, 0 < c < 1, r >= 1, n >= 1 (k-factors: n >= 2)",
@@ -62,33 +101,73 @@ ASSUMPTIONS = [
     "float evaluation decides confidence comparisons correctly when |confidence - c| >= 1e-9",
 ]
 PARTIAL = (
-    "partial: the order-statistics half is proved outright (all linearly ordered fields); the k-factor half is proved "
-    "relative to KFactor.Spec (Lean has no executable erf / non-central t / chi-square, so the cdfs are abstract "
-    "parameters) and convergence of the Newton loop in _getr is not proved (only: it stops exactly at solutions); "
-    "the limit n -> oo of the k-factors (k -> z_p from above for c >= 0.5) is checked by the oracle only (the "
-    "order-statistics limit, confidence -> 1 as n grows, is proved: confidence_eventually, n_exists); the 'p' query is covered by "
-    "tail_monotone_q (uniqueness/extremality of the root) and the oracle, its brentq solve is not modelled"
+    "partial: the order-statistics half is proved outright (all linearly ordered fields), now including the public entry "
+    "point (dispatch, absent arguments, broadcasting, result packaging: exact correspondence) and the 'p' query (exactly one "
+    "root in (0,1) over the reals; bracketing solvers are within their bracket width of it; brentq itself is trusted to "
+    "return a point inside a sign-change bracket of its documented width, which the oracle checks in exact arithmetic). "
+    "The k-factor half is proved relative to KFactor.Spec (Lean has no executable erf / non-central t / chi-square, so the "
+    "cdfs are abstract parameters).  Still not proved: (1) that _getr's Newton loop stops within MAXLOOPS = 100 passes — "
+    "proved is: under the measured concavity hypothesis the iterates are monotone and bounded from the first one on and the "
+    "stopping test — also the vectorised one, `not np.any(abs(r - rold) > tol)` over all elements — is reached after finitely "
+    "many passes for every tol > 0 (newton_monotone_convex, newton_vector_stops; no quadratic rate, so no bound by 100); (2) the n -> oo limit of kdouble (needs continuity of the normal quantile and the "
+    "chi-square asymptotics): oracle only; the limit of ksingle (k -> z_p, from above for c >= 1/2) is proved relative to "
+    "Spec extended by the two measured clauses NctAsym; (3) composition of the nested binary broadcasts inside kdouble into "
+    "the ternary broadcast of the model (tied by the exact shape/value stream, not proved)"
 )
 MANIFEST = {
     "level_text": "Proof (Lean 4, kernel-checked, standard axioms only). Order statistics: an exact model of "
     "order_stats('c'|'r'|'n') over any linearly ordered field; the confidence is the upper binomial sum (tail_def), "
-    "obeys the Pascal recurrence, is antitone in r, monotone in n and in 1-p; the returned rank is extremal "
-    "(c < conf(k) <-> k <= rank; rank+1 fails), the returned sample size is extremal (c <= conf(m) <-> n <= m, "
-    "including the n = r boundary of finding F10), the ValueError branch is reached only beyond r*2^31, and the query "
-    "forms are mutually consistent; exact ties are characterised (tie_example). The model is tied to the code by exact "
-    "integer correspondence on short-decimal inputs. k-factors: ksingle/kdouble/_getr written against abstract "
-    "distribution kernels; from the specification 'strictly increasing cdf, ppf its inverse' the defining probability "
-    "equations and strict monotonicity in p and c are proved; the same Lean expressions are executed at Float with "
-    "scipy supplying kernel values and compared with the code.",
-    "level_note": "Partial for the k-factor half: relative to the stated specification of scipy's norm/nct/chi2 "
-    "(trusted numerics, residuals measured each run); Newton convergence and the n -> oo limit are oracle-checked only. "
-    "Trusted: Lean kernel; propext, Classical.choice, Quot.sound; the Python harness; scipy binom/betainc/brentq away "
-    "from ties.",
+    "obeys the Pascal recurrence, is antitone in r, monotone in n and in 1-p (strictly inside (0,1): tail_strictMono_q); "
+    "the returned rank is extremal (c < conf(k) <-> k <= rank; rank+1 fails), the returned sample size is extremal "
+    "(c <= conf(m) <-> n <= m, including the n = r boundary of finding F10), the ValueError branch is reached only beyond "
+    "r*2^31, and the query forms are mutually consistent; exact ties are characterised (tie_example). The 'p' query has "
+    "exactly one answer in (0,1) for 1 <= r <= n (p_query_exists_unique: intermediate value theorem for the confidence "
+    "polynomial), raises exactly otherwise (p_query_defined_iff), and any bracketing solver is within its bracket width of "
+    "that answer (bisect_brackets_root, p_query_bracket). The public entry point is modelled as a whole: decision logic on "
+    "`which`, absent arguments, the ignored asked-for argument (order_stats_dispatch, order_stats_absent), numpy "
+    "broadcasting (order_stats_broadcast_*: shape = broadcast shape, element [idx] = scalar answer of the clipped index; "
+    "order_stats_scalar: scalar kinds), and no function of stats.py writes a caller's buffer (arguments_unchanged + "
+    "stats_effects_safe on effect skeletons regenerated from the source). The constants and switch points of stats.py "
+    "(doubling factor and limit, brentq brackets, MAXLOOPS, starting point, default tol, branch order, np.broadcast "
+    "argument orders) are regenerated into Generated/C20Stats.lean on every run and checked by `decide` "
+    "(stats_consts_tie, order_stats_dispatch_tie), as are the conversions (`n = np.asarray(n, dtype=float)`, `r = int(r)`) that make "
+    "the answers independent of the integer dtype of the caller's arrays (stats_dtype_tie; findings F54/F55). k-factors: ksingle/kdouble/_getr written against abstract distribution "
+    "kernels; from the specification 'strictly increasing cdf, ppf its inverse' the defining probability equations and "
+    "strict monotonicity in p and c are proved; ksingle/kdouble on arrays are the scalar formulas elementwise with ONE "
+    "Newton pass count per call (kfactor_elementwise_*); Newton's iterates in _getr are monotone and bounded after the "
+    "first step and reach the (vectorised) stopping test for every tol > 0 (newton_monotone_convex, newton_vector_stops, "
+    "under a measured concavity hypothesis); ksingle -> z_p as n -> oo with an explicit rate, from above for c >= 1/2 (ksingle_tendsto, "
+    "ksingle_ge_normal, under two measured clauses on the nct quantile). All models are tied to the code by exact "
+    "integer/rational correspondence (order statistics, packaging) and by Float execution of the same Lean expressions "
+    "with scipy supplying kernel values (k-factors, the whole Newton loop with its pass count).",
+    "level_note": "Partial for the k-factor half: relative to the stated specification of scipy's norm/nct/chi2 and three "
+    "measured hypotheses (concavity of the _getr residual on R >= 0, two nct clauses); not proved: a bound <= MAXLOOPS on "
+    "the Newton pass count, the n -> oo limit of kdouble (oracle only). Trusted: Lean kernel; propext, Classical.choice, "
+    "Quot.sound; the Python harness and translator; numpy's broadcasting/aliasing semantics as stated in TRUSTED; scipy "
+    "binom/betainc/brentq away from ties.",
     "technique": "Lean 4 proof (Pascal-recurrence induction, loop invariants for the scan/doubling/bisection searches, "
-    "order-theoretic arguments from an abstract cdf specification) + exact differential correspondence with pyyeti.stats",
+    "stride/ravel induction for broadcasting, a taint analysis proved sound for the effect skeletons, intermediate value "
+    "theorem, order-theoretic Newton argument, squeeze for the limit) + translator for constants and effect skeletons "
+    "(decide-checked) + exact differential correspondence with pyyeti.stats",
 }
 
 TIE = 1e-9
+# regression guards of repaired findings (fix cd7a6f7): integer arguments handed over as 8/16-bit numpy arrays
+FIXED_F54 = "order-stats-n-narrow-int-rank-array"
+FIXED_F55 = "kfactor-narrow-int-sample-size-array"
+INT_DTYPES = ("int64", "int32", "float64", "int8", "uint8", "int16", "uint16")
+
+
+def translate(ctx):
+    """constants, switch points and effect skeletons of pyyeti/stats.py -> Generated/C20Stats.lean (Python ast only)"""
+    from translate import c20_stats as tr
+
+    try:
+        c = tr.run(ctx.repo, ctx.lean)
+    except tr.Unparsable as e:
+        raise TieBroken("stats.py: %s" % e)
+    ctx.extra["stats_consts"] = {k: v for k, v in c.items() if k != "effects"}
+    return ["C20Stats"]
 
 # ---------------------------------------------------------------------------------------
 # helpers
@@ -413,10 +492,439 @@ def correspondence(ctx):
                          "did not predict, or the step is not a fixed point)")
         elif len(ctx.samples) < 6 and stream == "ksingle":
             ctx.sample({"input": inp, "impl": iv, "model": mv})
+    # --- public entry points as a whole
+    _corr_api(ctx, stats, drv.ask)
+    _corr_kapi(ctx, stats, drv.ask)
     ctx.require_branches(["r:zero", "r:interior", "r:equals-n", "n:equals-r", "n:no-doubling", "n:doubling",
-                          "c:interior", "rat-instance", "k:ksingle", "k:kdouble", "k:newton"])
+                          "c:interior", "rat-instance", "k:ksingle", "k:kdouble", "k:newton",
+                          "api:bad-which", "api:type-error", "api:shape-error", "api:solver-error", "api:broadcast-2d",
+                          "api:c:scalar", "api:r:scalar", "api:n:scalar", "api:p:scalar",
+                          "api:c:array", "api:r:array", "api:n:array", "api:p:array",
+                          "k:ksingle-array", "k:kdouble-array", "k:getr-loop", "k:broadcast-2d", "k:shape-error",
+                          "k:getr-loops-2-3", "k:getr-loops-4+"])
     ctx.extra["not_exercised"] = ("n:value-error needs an answer above r*2^31 (p within 1e-9 of 1): theorem n_total "
                                   "characterises it, the exact model cannot be evaluated there")
+
+
+# ---------------------------------------------------------------------------------------
+# public entry points: dispatch, absent arguments, broadcasting, packaging (Model/OrderStatsApi.lean, KFactorApi.lean)
+
+PQ_ITERS = 40          # halvings of the model of the 'p' root finder: centre within 2^-41 of the root
+_SHAPES = [(), (), (), (1,), (2,), (3,), (2, 1), (1, 3), (2, 3), (3, 1), (1, 1), (2, 1, 3), (1, 2, 1), (0,), (2, 0), (0, 3)]
+_BADWHICH = ["x", "", "C", "c ", " r", "pp", "cr", "N", "which", "rank"]
+
+
+def _compatible_shapes(rng, k):
+    """k shapes that broadcast together (mostly), built from one target shape"""
+    tgt = rng.choice([(), (2,), (3,), (2, 3), (3, 2), (2, 1, 3), (4,), (2, 2), (0,), (2, 0), (0, 3), (1,), (1, 1)])
+    out = []
+    for _ in range(k):
+        u = rng.random()
+        if u < 0.3:
+            out.append(())
+        else:
+            cut = rng.randint(0, len(tgt))
+            sh = tuple(d if rng.random() < 0.6 else 1 for d in tgt[cut:])
+            out.append(sh)
+    if rng.random() < 0.12:  # make them incompatible
+        i = rng.randrange(k)
+        out[i] = rng.choice([(5,), (2, 5), (5, 1, 1), (7,)])
+    return out
+
+
+def _int_dtype(rng, a):
+    """an integer (or float64) dtype that holds the values of `a`: every width from 8 bits on — since fix cd7a6f7 (F54, F55) the
+    code converts to float64 / Python int before it computes; unsigned only for values >= 1 (`r - 1` of the 'c' and 'p'
+    queries is done in the caller's dtype: r = 0 is outside the property's domain)"""
+    ok = []
+    for name in INT_DTYPES:
+        dt = np.dtype(name)
+        if dt.kind == "f" or not a.size:
+            ok.append(dt)
+            continue
+        info = np.iinfo(dt)
+        if a.min() >= (1 if dt.kind == "u" else info.min) and a.max() <= info.max:
+            ok.append(dt)
+    return rng.choice(ok)
+
+
+def _pack(rng, arr, kind):
+    """hand a value to the implementation the way callers do: python scalars, lists, tuples, arrays of several dtypes and
+    memory layouts; the array handed over is kept so that `unchanged` can be checked"""
+    a = np.asarray(arr)
+    if a.ndim == 0:
+        v = a[()]
+        u = rng.random()
+        if u < 0.5:
+            return float(v) if kind == "f" else int(v)
+        if u < 0.7:
+            return np.float64(v) if kind == "f" else np.int64(v)
+        if u < 0.8 and kind == "i":
+            return float(v)
+        return np.array(v)
+    u = rng.random()
+    if u < 0.3 and (a.size or a.ndim == 1):   # (a nested list cannot spell an empty array of rank >= 2)
+        return a.tolist()
+    if u < 0.4 and a.ndim == 1:
+        return tuple(a.tolist())
+    if kind == "i":
+        a = a.astype(_int_dtype(rng, a))
+    if u < 0.6:
+        return np.asfortranarray(a)
+    if u < 0.75 and a.size:
+        big = np.zeros(tuple(2 * d for d in a.shape), dtype=a.dtype)   # a non-contiguous view
+        sl = tuple(slice(None, None, 2) for _ in a.shape)
+        big[sl] = a
+        return big[sl]
+    return a.copy()
+
+
+def _nd_str(arr, fmt):
+    if arr is None:
+        return "-"
+    a = np.asarray(arr, dtype=object) if not isinstance(arr, np.ndarray) else arr
+    return "%s:%s" % (",".join(str(d) for d in a.shape), ",".join(fmt(x) for x in a.ravel(order="C")))
+
+
+def _gen_api(ctx, count):
+    """(which, {name: None | ndarray of strings (p, c) / ints (n, r)})"""
+    rng = ctx.rng
+    out = []
+    # the whole decision table: every `which` (valid and not) x every subset of absent arguments, scalars
+    for w in ["c", "r", "n", "p"] + _BADWHICH[:4]:
+        for mask in range(16):
+            a = {"p": "0.9", "c": "0.9", "n": 30, "r": 2}
+            args = {k: (None if mask >> i & 1 else np.array(a[k], dtype=object)) for i, k in enumerate("pcnr")}
+            out.append((w, args))
+    for _ in range(count):
+        w = rng.choice("crnp") if rng.random() < 0.93 else rng.choice(_BADWHICH)
+        reads = {"c": "rnp", "r": "cnp", "n": "crp", "p": "crn"}.get(w, "pcn")
+        shapes = dict(zip(reads, _compatible_shapes(rng, 3)))
+        args = {}
+        for k in "pcnr":
+            if k not in shapes:
+                # the quantity asked for: usually absent, sometimes given (it is ignored)
+                if rng.random() < 0.75:
+                    args[k] = None
+                    continue
+                shapes[k] = rng.choice(_SHAPES)
+            elif rng.random() < 0.06:
+                args[k] = None
+                continue
+            sh = shapes[k]
+            size = int(np.prod(sh)) if sh else 1
+            if k == "p":
+                vals = [rng.choice(["0.5", "0.6", "0.75", "0.8", "0.9", "0.95", "0.25", "0.4"]) if rng.random() < 0.7
+                        else "0.%02d" % rng.randint(5, 95) for _ in range(size)]
+            elif k == "c":
+                vals = [rng.choice(["0.5", "0.9", "0.75", "0.2", "0.1", "0.95", "0.6"]) if rng.random() < 0.7
+                        else "0.%02d" % rng.randint(3, 97) for _ in range(size)]
+            elif k == "n":
+                vals = [rng.randint(1, 12) if rng.random() < 0.4 else rng.randint(1, 40) for _ in range(size)]
+            else:
+                vals = [rng.randint(1, 4) if rng.random() < 0.8 else rng.randint(0, 9) for _ in range(size)]
+            arr = np.empty(sh, dtype=object)
+            arr.ravel()[...] = vals  # C order
+            if sh:
+                arr = np.array(vals, dtype=object).reshape(sh)
+            else:
+                arr = np.array(vals[0], dtype=object)
+            args[k] = arr
+        out.append((w, args))
+    return out
+
+
+def _api_request(w, args):
+    wtok = "~" if w == "" else w.replace(" ", "_")
+    fq = lambda x: _fs(Fraction(str(x)))
+    return "api %d %s p=%s c=%s n=%s r=%s" % (PQ_ITERS, wtok, _nd_str(args["p"], fq), _nd_str(args["c"], fq),
+                                             _nd_str(args["n"], lambda x: str(int(x))), _nd_str(args["r"], lambda x: str(int(x))))
+
+
+def _classify_exc(e):
+    msg = str(e)
+    if isinstance(e, TypeError):
+        return "err type-error"
+    if isinstance(e, ValueError):
+        if "invalid `which`" in msg:
+            return "err bad-which"
+        if "broadcast" in msg or "shape mismatch" in msg:
+            return "err shape-error"
+        if "different signs" in msg:
+            return "err solver-error"
+    return "err other:%s:%s" % (type(e).__name__, msg[:60])
+
+
+def _api_impl(stats, rng, w, args):
+    """call the implementation; returns (classification, value, the arrays handed over with their copies)"""
+    kw, held = {}, []
+    for k in "pcnr":
+        if args[k] is None:
+            if rng.random() < 0.5:
+                kw[k] = None       # explicit None and omitted are the same thing
+            continue
+        a = args[k]
+        num = np.array([float(x) for x in a.ravel()]).reshape(a.shape) if k in "pc" else np.array([int(x) for x in a.ravel()], dtype=np.int64).reshape(a.shape)
+        v = _pack(rng, num, "f" if k in "pc" else "i")
+        kw[k] = v
+        if isinstance(v, np.ndarray):
+            held.append((k, v, v.copy()))
+    try:
+        with warnings.catch_warnings():
+            warnings.simplefilter("ignore")
+            res = stats.order_stats(w, **kw)
+    except Exception as e:  # noqa: BLE001 - every exception kind is part of the modelled behaviour
+        return _classify_exc(e), None, held
+    if type(res) is int:
+        return "pyint", res, held
+    if isinstance(res, np.ndarray):
+        return ("intarr" if res.dtype.kind in "iu" else "floatarr" if res.dtype.kind == "f" else "arr-" + res.dtype.str), res, held
+    if isinstance(res, np.integer):
+        return "npint", int(res), held
+    if isinstance(res, np.floating):
+        return "npfloat", float(res), held
+    return "other:" + type(res).__name__, res, held
+
+
+def _parse_api_reply(line):
+    kind, _, rest = line.partition(" ")
+    if kind == "err":
+        return line, None
+    if kind in ("pyint", "npint"):
+        return kind, int(rest)
+    if kind == "npfloat":
+        return kind, float(Fraction(rest))
+    dims, _, vals = rest.partition(":")
+    shape = tuple(int(d) for d in dims.split(",") if d)
+    items = [v for v in vals.split(",") if v]
+    if kind == "intarr":
+        return kind, np.array([int(v) for v in items], dtype=np.int64).reshape(shape)
+    return kind, np.array([float(Fraction(v)) for v in items], dtype=float).reshape(shape)
+
+
+def _api_element_tie(w, args, idx_val_pairs):
+    """is one of the differing integer elements a float tie? (args broadcast elementwise)"""
+    reads = {"r": "cnp", "n": "crp"}[w]
+    arrs = np.broadcast_arrays(*[args[k] for k in reads])
+    for flat, model in idx_val_pairs:
+        el = {k: arrs[i].ravel()[flat] for i, k in enumerate(reads)}
+        case = (w, str(el["p"]), str(el["c"]), int(el["n"]) if "n" in el else None, int(el["r"]) if "r" in el else None)
+        if not _is_tie(case, int(model)):
+            return False
+    return True
+
+
+def _corr_api(ctx, stats, drv_lines):
+    """stream `api`: order_stats as a whole (dispatch, None, broadcasting order and shape, result packaging) — exact"""
+    cases = _gen_api(ctx, ctx.pick(420, 1600))
+    rep = drv_lines([_api_request(w, a) for w, a in cases])
+    for (w, args), line in zip(cases, rep):
+        kind_i, val_i, held = _api_impl(stats, ctx.rng, w, args)
+        kind_m, val_m = _parse_api_reply(line)
+        absent = "".join(k for k in "pcnr" if args[k] is None)
+        inp = {"which": w, "absent": absent, "dtypes": {k: v.dtype.name for k, v, _ in held if k in "nr"},
+               **{k: (None if args[k] is None else {"shape": list(args[k].shape), "values": [str(x) for x in args[k].ravel()]}) for k in "pcnr"}}
+        br = ("api:" + kind_m.replace("err ", "")) if kind_m.startswith("err") else "api:%s:%s" % (w, "scalar" if kind_m in ("pyint", "npint", "npfloat") else "array")
+        nontriv = not kind_m.startswith("err") and (np.size(val_m) > 0)
+        ctx.case(("api", w, repr(inp)), nontrivial=nontriv, branch=br)
+        if kind_m in ("intarr", "floatarr") and val_m.ndim >= 2 and val_m.size > 1:
+            ctx.count("api:broadcast-2d")
+        for k, v, keep in held:
+            if v.tobytes() != keep.tobytes() or v.shape != keep.shape:
+                ctx.disagree("api-argument-modified", inp, "argument %s changed by the call" % k, "unchanged (arguments_unchanged)")
+        if kind_i != kind_m:
+            ctx.disagree("api-kind", inp, kind_i, kind_m)
+            continue
+        if val_m is None:
+            continue
+        if kind_m in ("intarr", "floatarr") and np.shape(val_i) != np.shape(val_m):
+            ctx.disagree("api-shape", inp, list(np.shape(val_i)), list(np.shape(val_m)))
+            continue
+        vi, vm = np.asarray(val_i), np.asarray(val_m)
+        if kind_m in ("pyint", "npint", "intarr"):
+            if not np.array_equal(vi, vm):
+                bad = [(int(f), int(vm.ravel()[f])) for f in np.flatnonzero(vi.ravel() != vm.ravel())]
+                if w in ("r", "n") and all(abs(int(vi.ravel()[f]) - m) == 1 for f, m in bad) and _api_element_tie(w, args, bad):
+                    ctx.skip("tie |confidence - c| < 1e-9")
+                    continue
+                ctx.disagree("api-int-values", inp, vi.tolist(), vm.tolist())
+        else:
+            tol = 1e-10 if w == "c" else 1e-9
+            if not np.all(np.abs(vi - vm) <= tol):
+                ctx.disagree("api-float-values", inp, vi.tolist(), vm.tolist())
+
+
+def _kf_grid(ctx, count):
+    """(p, c, n) float/int arrays with broadcast-compatible shapes for the k-factor entry points"""
+    rng = ctx.rng
+    out = []
+    for _ in range(count):
+        shp = _compatible_shapes(rng, 3)
+        arrs = []
+        for k, sh in zip("pcn", shp):
+            size = int(np.prod(sh)) if sh else 1
+            if k == "p":
+                vals = [rng.choice([0.5, 0.75, 0.9, 0.95, 0.99, 0.999, 0.6]) if rng.random() < 0.7 else round(rng.uniform(0.5, 0.999), 3) for _ in range(size)]
+            elif k == "c":
+                vals = [rng.choice([0.5, 0.9, 0.95, 0.1, 0.75, 0.99]) if rng.random() < 0.7 else round(rng.uniform(0.03, 0.99), 2) for _ in range(size)]
+            else:
+                vals = [rng.randint(2, 12) if rng.random() < 0.5 else rng.randint(2, 400) if rng.random() < 0.8 else int(10 ** rng.uniform(2.5, 6)) for _ in range(size)]
+            arrs.append(np.array(vals, dtype=float if k != "n" else np.int64).reshape(sh))
+        out.append(tuple(arrs))
+    return out
+
+
+class _NormRecorder:
+    """stands in for `stats.norm` during one call and records the (argument, value) pairs of cdf/ppf, so that the Lean
+    model is given exactly the kernel values the implementation used"""
+
+    def __init__(self, real):
+        self._real = real
+        self.cdf_log, self.ppf_log = [], []
+
+    def cdf(self, x):
+        v = self._real.cdf(x)
+        self.cdf_log.append((np.array(x, dtype=float).ravel(), np.array(v, dtype=float).ravel()))
+        return v
+
+    def ppf(self, x):
+        v = self._real.ppf(x)
+        self.ppf_log.append((np.array(x, dtype=float).ravel(), np.array(v, dtype=float).ravel()))
+        return v
+
+
+def _with_recorder(stats, fn):
+    real = stats.norm
+    rec = _NormRecorder(real)
+    stats.norm = rec
+    try:
+        with warnings.catch_warnings():
+            warnings.simplefilter("ignore")
+            try:
+                res = fn()
+            except Exception as e:  # noqa: BLE001
+                res = _classify_exc(e)
+    finally:
+        stats.norm = real
+    return res, rec
+
+
+def _tab_entries(rec):
+    ent = []
+    for xs, vs in rec.ppf_log:
+        ent += ["P:%s=%s" % (_bits(x), _bits(v)) for x, v in zip(xs, vs)]
+    for xs, vs in rec.cdf_log:
+        ent += ["C:%s=%s" % (_bits(x), _bits(v)) for x, v in zip(xs, vs)]
+    return ent
+
+
+def _parse_farr(txt):
+    dims, _, vals = txt.partition(":")
+    shape = tuple(int(d) for d in dims.split(",") if d)
+    return np.array([_unbits(v) for v in vals.split(",") if v], dtype=float).reshape(shape)
+
+
+def _corr_kapi(ctx, stats, drv_lines):
+    """streams `ksingle-array`, `kdouble-array`, `getr-loop`: the array entry points and the whole Newton loop"""
+    from scipy.stats import norm, nct, chi2
+
+    rng = ctx.rng
+    grids = _kf_grid(ctx, ctx.pick(160, 700))
+    req, meta = [], []
+    fb = lambda x: _bits(np.float64(x))
+    for p, c, n in grids:
+        nf = n.astype(float)
+        tol = rng.choice([1e-12, 1e-12, 1e-12, 1e-9, 1e-6, 1e-3, 1e-14])
+        try:
+            bp, bc, bn = np.broadcast_arrays(p, c, nf)
+        except ValueError:
+            bp = bc = bn = None
+        args = [_pack(rng, p, "f"), _pack(rng, c, "f"), _pack(rng, n, "i")]
+        held = [(v, v.copy()) for v in args if isinstance(v, np.ndarray)]
+        inp = {"p": p.tolist(), "c": c.tolist(), "n": n.tolist(), "shapes": [list(p.shape), list(c.shape), list(n.shape)],
+               "n_dtype": args[2].dtype.name if isinstance(args[2], np.ndarray) else type(args[2]).__name__}
+        with warnings.catch_warnings():
+            warnings.simplefilter("ignore")
+            # ---- ksingle
+            tab = []
+            if bp is not None:
+                for pp, cc, nn in zip(bp.ravel(), bc.ravel(), bn.ravel()):
+                    zp = norm.ppf(pp)
+                    nc = np.sqrt(nn) * zp
+                    tab.append("P:%s=%s" % (fb(pp), fb(zp)))
+                    tab.append("T:%s,%s,%s=%s" % (fb(cc), fb(nn - 1), fb(nc), fb(nct.ppf(cc, nn - 1, nc))))
+            req.append("ksa p=%s c=%s n=%s %s" % (_nd_str(p, fb), _nd_str(c, fb), _nd_str(nf, fb), " ".join(sorted(set(tab)))))
+            try:
+                res = stats.ksingle(*args)
+            except Exception as e:  # noqa: BLE001
+                res = _classify_exc(e)
+            meta.append(("ksingle-array", inp, res, None, held))
+            # ---- kdouble (kernel values recorded from the implementation's own calls)
+            res, rec = _with_recorder(stats, lambda: stats.kdouble(args[0], args[1], args[2], tol))
+            tab = _tab_entries(rec)
+            if bp is not None:
+                for cc, nn in zip(bc.ravel(), bn.ravel()):
+                    tab.append("X:%s,%s=%s" % (fb(1 - cc), fb(nn - 1), fb(chi2.ppf(1 - cc, nn - 1))))
+            req.append("kda %s p=%s c=%s n=%s %s" % (fb(tol), _nd_str(p, fb), _nd_str(c, fb), _nd_str(nf, fb), " ".join(dict.fromkeys(tab))))
+            meta.append(("kdouble-array", dict(inp, tol=tol), res, len(rec.cdf_log) // 2, held))
+            # ---- _getr on the (n, prob) grid
+            getr = getattr(stats, "_getr", None)
+            if getr is None:
+                res, rec = "err missing _getr", _NormRecorder(norm)
+            else:
+                res, rec = _with_recorder(stats, lambda: getr(n, p, tol))
+            req.append("gra %s n=%s prob=%s %s" % (fb(tol), _nd_str(nf, fb), _nd_str(p, fb), " ".join(dict.fromkeys(_tab_entries(rec)))))
+            steps = None
+            if not isinstance(res, str) and rec.cdf_log:
+                # |step| of every pass, from the recorded arguments lhi = sn + rold, llo = sn - rold
+                rolds = [(a[0] - b[0]) / 2 for a, b in zip(rec.cdf_log[0::2], rec.cdf_log[1::2])]
+                rolds.append(np.asarray(res, dtype=float).ravel())
+                steps = [np.max(np.abs(b - a)) if np.size(a) else 0.0 for a, b in zip(rolds[:-1], rolds[1:])]
+            meta.append(("getr-loop", dict(inp, tol=tol), res, (len(rec.cdf_log) // 2, steps, tol), held))
+    rep = drv_lines(req)
+    for (stream, inp, res, aux, held), line in zip(meta, rep):
+        ctx.case((stream, repr(inp)), nontrivial=True, branch="k:" + stream)
+        for v, keep in held:
+            if v.tobytes() != keep.tobytes():
+                ctx.disagree("k-argument-modified", inp, "an argument array was changed by " + stream, "unchanged (arguments_unchanged)")
+                v[...] = keep
+        if line == "shape-error" or isinstance(res, str):
+            if not (line == "shape-error" and res == "err shape-error"):
+                ctx.disagree(stream + "-kind", inp, res if isinstance(res, str) else "a result", line[:80])
+            else:
+                ctx.count("k:shape-error")
+            continue
+        if line == "bad-op":
+            ctx.disagree(stream, inp, "a result", "bad-op")
+            continue
+        loops_m = None
+        if stream != "ksingle-array":
+            lm, _, line = line.partition(" ")
+            loops_m = int(lm)
+        mv = _parse_farr(line)
+        iv = np.asarray(res, dtype=float)
+        if iv.shape != mv.shape:
+            ctx.disagree(stream + "-shape", inp, list(iv.shape), list(mv.shape))
+            continue
+        if mv.ndim >= 2 and mv.size > 1:
+            ctx.count("k:broadcast-2d")
+        if mv.ndim == 0 and not isinstance(res, np.floating):
+            ctx.disagree(stream + "-kind", inp, type(res).__name__, "numpy float scalar")
+        tolv = 1e-12 if stream == "ksingle-array" else 1e-10
+        ok = np.all((np.abs(iv - mv) <= tolv * np.maximum(1.0, np.abs(mv))) | (np.isnan(iv) & np.isnan(mv) & (stream == "ksingle-array")))
+        if not ok:
+            ctx.disagree(stream, inp, iv.tolist(), [x if x == x else "nan (the model asked for a kernel value that the implementation did not use)" for x in mv.ravel().tolist()])
+            continue
+        if stream == "getr-loop":
+            loops_i, steps, tol = aux
+            if loops_m != loops_i:
+                # the stopping test compares |step| with tol: a step within 0.1 % of tol can fall either way in the last bit
+                if steps is not None and any(abs(s - tol) <= 1e-3 * tol + 2e-15 for s in steps):
+                    ctx.skip("Newton step within 0.1% of tol")
+                else:
+                    ctx.disagree("getr-loop-count", inp, loops_i, loops_m)
+            else:
+                ctx.count("k:getr-loops-%s" % ("1" if loops_m <= 1 else "2-3" if loops_m <= 3 else "4+"))
 
 
 # ---------------------------------------------------------------------------------------
@@ -566,6 +1074,8 @@ def _o_broadcast(stats, item):
             arr = _call(os_, "p", **kw)
             unchanged("p")
             want = [[_call(os_, "p", c=cs, n=ns[i], r=rs[i])] for i in range(2)]
+            if any(isinstance(w[0], str) for w in want):
+                continue  # r > n for one of the elements: no coverage has that confidence, scalar and array calls both raise
             if isinstance(arr, str) or np.shape(arr) != (2, 1) or not np.allclose(arr, want, rtol=0, atol=1e-9):
                 fail("p", np.asarray(arr).tolist() if not isinstance(arr, str) else arr, want)
             continue
@@ -679,6 +1189,332 @@ def _o_klimit(stats, p, c):
     return out
 
 
+# ---- oracle items for the public entry points, the root finders and the added specification clauses
+
+
+def _scalar_ref(stats, w, el):
+    """the scalar answer (python scalars in) for one element of a broadcast call"""
+    kw = {k: (float(v) if k in "pc" else int(v)) for k, v in el.items()}
+    return _call(stats.order_stats, w, **kw)
+
+
+def _o_apicall(stats, item):
+    """order_stats on array_like arguments restated on the public API: which strings, absent arguments, shape =
+    numpy's broadcast shape, element [idx] = the scalar answer for the arguments' elements, arguments unchanged"""
+    out = []
+    w = item["which"]
+    spec = {k: item.get(k) for k in "pcnr"}
+    inp = dict(item)
+
+    def fail(family, what, observed, required):
+        out.append({"family": family, "what": what, "input": inp, "observed": observed, "required": required})
+
+    kw = {}
+    for k, v in spec.items():
+        if v is None:
+            continue
+        a = np.array([float(x) if k in "pc" else int(x) for x in v["values"]], dtype=float if k in "pc" else np.int64).reshape(v["shape"])
+        if k in (item.get("dtypes") or {}) and a.ndim:
+            a = a.astype(item["dtypes"][k])
+        kw[k] = a if a.ndim else (float(a) if k in "pc" else int(a))
+    keep = {k: (v.copy() if isinstance(v, np.ndarray) else v) for k, v in kw.items()}
+    try:
+        with warnings.catch_warnings():
+            warnings.simplefilter("ignore")
+            res = stats.order_stats(w, **kw)
+        exc = None
+    except Exception as e:  # noqa: BLE001
+        res, exc = None, e
+    for k, v in kw.items():
+        if isinstance(v, np.ndarray) and (v.shape != keep[k].shape or v.tobytes() != keep[k].tobytes()):
+            fail("argument-array-modified-order-stats", "order_stats('%s') changed the caller's %s array" % (w, k), v.tolist(), keep[k].tolist())
+    if w not in ("c", "r", "n", "p"):
+        if not isinstance(exc, ValueError):
+            fail("order-stats-invalid-which-accepted", "an invalid `which` does not raise ValueError", repr(res) if exc is None else type(exc).__name__, "ValueError")
+        return out
+    reads = {"c": "rnp", "r": "cnp", "n": "crp", "p": "crn"}[w]
+    shapes = [np.shape(kw[k]) if k in kw else () for k in reads]
+    try:
+        bshape = np.broadcast_shapes(*shapes)
+    except ValueError:
+        if exc is None:
+            fail("order-stats-shape-mismatch-accepted", "arguments that cannot be broadcast are accepted", np.shape(res), "an exception")
+        return out
+    size = int(np.prod(bshape)) if bshape else 1
+    if any(k not in kw for k in reads):
+        # an argument the query needs is absent: there is nothing to compute, a value must not come back
+        if exc is None and (size > 0 or w == "c"):
+            fail("order-stats-missing-argument-accepted", "order_stats('%s') returns a value although %s is absent"
+                 % (w, [k for k in reads if k not in kw]), repr(res)[:80], "an exception")
+        return out
+    arrs = np.broadcast_arrays(*[np.asarray(kw[k]) for k in reads])
+    want = np.empty(bshape, dtype=object)
+    for idx in np.ndindex(*bshape):
+        want[idx] = _scalar_ref(stats, w, {k: arrs[i][idx] for i, k in enumerate(reads)})
+    if any(isinstance(x, str) for x in want.ravel()):
+        if exc is None and size:
+            fail("broadcast-mismatch-" + w, "an element whose scalar call raises is accepted in an array call", repr(res)[:80], "an exception")
+        return out
+    if exc is not None:
+        fail("broadcast-mismatch-" + w, "array arguments raise although every element has a scalar answer",
+             "%s: %s" % (type(exc).__name__, str(exc)[:80]), "shape %s" % (bshape,))
+        return out
+    if np.shape(res) != tuple(bshape):
+        fail("broadcast-mismatch-" + w, "result shape is not the broadcast shape of the arguments", list(np.shape(res)), list(bshape))
+        return out
+    got = np.asarray(res)
+    if w in ("r", "n"):
+        ok = got.dtype.kind in "iu" and np.array_equal(got.astype(object), want) if size else got.dtype.kind in "iu"
+    else:
+        ok = got.dtype.kind == "f" and (not size or np.allclose(got.astype(float), want.astype(float), rtol=0, atol=1e-9))
+    if not ok:
+        fail("broadcast-mismatch-" + w, "array arguments do not give the scalar answers elementwise (%s)" % w,
+             got.tolist(), want.tolist())
+    if not bshape and isinstance(res, np.ndarray):
+        fail("broadcast-mismatch-" + w, "scalar arguments return an array", "ndarray", "a scalar")
+    # the quantity asked for is not read: supplying it must not matter
+    if item.get("probe_unknown", True) and size and size <= 6:
+        junk = {"c": 0.123, "r": 3, "n": 17, "p": 0.321}[w]
+        res2 = _call(stats.order_stats, w, **dict(kw, **{w: junk}))
+        if isinstance(res2, str) or np.shape(res2) != np.shape(res) or not np.allclose(np.asarray(res2, dtype=float), got.astype(float), rtol=0, atol=1e-12):
+            fail("order-stats-unknown-argument-read", "supplying the quantity that is asked for changes the answer",
+                 res2 if isinstance(res2, str) else np.asarray(res2).tolist(), got.tolist())
+    return out
+
+
+def _gen_apicall(rng):
+    w = rng.choice("crnp") if rng.random() < 0.9 else rng.choice(_BADWHICH)
+    reads = {"c": "rnp", "r": "cnp", "n": "crp", "p": "crn"}.get(w, "pcn")
+    shapes = dict(zip(reads, _compatible_shapes(rng, 3)))
+    item = {"kind": "apicall", "which": w, "p": None, "c": None, "n": None, "r": None}
+    for k in reads:
+        if rng.random() < 0.05:
+            continue
+        sh = shapes[k]
+        size = int(np.prod(sh)) if sh else 1
+        if k == "p":
+            vals = [rng.choice(["0.5", "0.75", "0.9", "0.95", "0.6", "0.25"]) if rng.random() < 0.7 else "0.%02d" % rng.randint(5, 95) for _ in range(size)]
+        elif k == "c":
+            vals = [rng.choice(["0.5", "0.9", "0.75", "0.2", "0.95"]) if rng.random() < 0.7 else "0.%02d" % rng.randint(3, 97) for _ in range(size)]
+        elif k == "n":
+            vals = [rng.randint(1, 60) for _ in range(size)]
+        else:
+            vals = [rng.randint(1, 4) if rng.random() < 0.85 else rng.randint(0, 9) for _ in range(size)]
+        item[k] = {"shape": list(sh), "values": [str(v) for v in vals]}
+        if k in "nr" and sh:
+            item.setdefault("dtypes", {})[k] = _int_dtype(rng, np.array(vals if vals else [1])).name
+    return item
+
+
+def _o_kcall(stats, item):
+    """ksingle / kdouble on array_like arguments: shape = broadcast shape, elementwise = scalar calls, arguments unchanged"""
+    out = []
+    inp = dict(item)
+    arrs = [np.array(item[k]["values"], dtype=float if k != "n" else np.int64).reshape(item[k]["shape"]) for k in "pcn"]
+    if item.get("n_dtype") in INT_DTYPES and arrs[2].ndim:
+        arrs[2] = arrs[2].astype(item["n_dtype"])
+    try:
+        bshape = np.broadcast_shapes(*[a.shape for a in arrs])
+    except ValueError:
+        bshape = None
+    for name in ("ksingle", "kdouble"):
+        fn = getattr(stats, name)
+        args = [a.copy() if a.ndim else a[()].item() for a in arrs]
+        keep = [a.copy() if isinstance(a, np.ndarray) else a for a in args]
+        res = _call(fn, *args)
+        for k, a, b in zip("pcn", args, keep):
+            if isinstance(a, np.ndarray) and a.tobytes() != b.tobytes():
+                out.append({"family": "argument-array-modified-" + name, "what": "%s changed the caller's %s array" % (name, k),
+                            "input": inp, "observed": a.tolist(), "required": b.tolist()})
+        if bshape is None:
+            if not isinstance(res, str):
+                out.append({"family": "broadcast-mismatch-" + name, "what": "arguments that cannot be broadcast are accepted",
+                            "input": inp, "observed": list(np.shape(res)), "required": "an exception"})
+            continue
+        b3 = np.broadcast_arrays(*arrs)
+        want = np.empty(bshape, dtype=float)
+        for idx in np.ndindex(*bshape):
+            v = _call(fn, float(b3[0][idx]), float(b3[1][idx]), int(b3[2][idx]))
+            want[idx] = np.nan if isinstance(v, str) else float(v)
+        ok = (not isinstance(res, str)) and np.shape(res) == tuple(bshape) and np.allclose(np.asarray(res, dtype=float), want, rtol=1e-10, atol=1e-12, equal_nan=True)
+        if not ok:
+            out.append({"family": "broadcast-mismatch-" + name, "what": "array arguments do not give the scalar answers elementwise (%s)" % name,
+                        "input": inp, "observed": res if isinstance(res, str) else np.asarray(res).tolist(), "required": want.tolist()})
+    return out
+
+
+def _gen_kcall(rng):
+    shp = _compatible_shapes(rng, 3)
+    if rng.random() < 0.9:
+        # always compatible here
+        tgt = rng.choice([(2, 3), (3,), (2, 1, 2), (4,), ()])
+        shp = [tuple(d if rng.random() < 0.6 else 1 for d in tgt[rng.randint(0, len(tgt)):]) for _ in range(3)]
+    item = {"kind": "kcall"}
+    for k, sh in zip("pcn", shp):
+        size = int(np.prod(sh)) if sh else 1
+        if k == "p":
+            vals = [rng.choice([0.5, 0.75, 0.9, 0.95, 0.99, 0.999]) for _ in range(size)]
+        elif k == "c":
+            vals = [rng.choice([0.5, 0.9, 0.95, 0.1, 0.75, 0.99]) for _ in range(size)]
+        else:
+            vals = [rng.randint(2, 12) if rng.random() < 0.5 else rng.randint(2, 3000) for _ in range(size)]
+        item[k] = {"shape": list(sh), "values": vals}
+    item["n_dtype"] = _int_dtype(rng, np.array(item["n"]["values"] or [2])).name
+    return item
+
+
+def _o_proot(stats, item):
+    """order_stats('p'): the returned coverage sits inside a sign-change bracket of brentq's width (exact rational
+    arithmetic): THE root (p_query_exists_unique) is within that width (bisect_brackets_root); no root -> ValueError"""
+    out = []
+    c, n, r = item["c"], item["n"], item["r"]
+    inp = dict(item)
+    P = _call(stats.order_stats, "p", c=float(c), n=n, r=r)
+    if not (1 <= r <= n):
+        if P != "value-error":
+            out.append({"family": "order-stats-p-no-root-accepted", "what": "'p' returns although no coverage has this confidence (r = 0 or r > n)",
+                        "input": inp, "observed": P, "required": "ValueError"})
+        return out
+    if isinstance(P, str) or not 0.0 < float(P) < 1.0:
+        out.append({"family": "order-stats-p-raises", "what": "'p' fails although exactly one coverage in (0, 1) has this confidence",
+                    "input": inp, "observed": P, "required": "a coverage in (0, 1)"})
+        return out
+    P = float(P)
+    delta = 2 * (2e-12 + 4 * np.finfo(float).eps)      # twice brentq's default xtol + rtol |x| on [0, 1]
+    cf = Fraction(c)
+    lo = _cmp_tail(n, r, 1 - Fraction(min(1.0, P + delta)), cf)[0]   # coverage a little larger: confidence must be <= c
+    hi = _cmp_tail(n, r, 1 - Fraction(max(0.0, P - delta)), cf)[0]   # coverage a little smaller: confidence must be >= c
+    if lo > 0 or hi < 0:
+        out.append({"family": "order-stats-p-not-root", "what": "the confidence does not cross c within brentq's tolerance of the returned coverage",
+                    "input": inp, "observed": {"p": P, "sign(conf(p+d)-c)": lo, "sign(conf(p-d)-c)": hi}, "required": "<= 0 and >= 0"})
+    return out
+
+
+def _o_newton(stats, item):
+    """_getr: the loop converges below the cap; the hypotheses of newton_monotone_convex are measured (tangent inequality
+    on R >= 0, first iterate >= 0) and its conclusions observed on the same iteration (monotone from the first iterate,
+    bounded by the root)"""
+    from scipy.stats import norm
+
+    out = []
+    n, prob = item["n"], item["prob"]
+    inp = dict(item)
+
+    def fail(family, what, observed, required):
+        out.append({"family": family, "what": what, "input": inp, "observed": observed, "required": required})
+
+    s = 1 / math.sqrt(n)
+    g = lambda R: norm.cdf(s + R) - norm.cdf(s - R) - prob
+    d = lambda R: (math.exp(-(s + R) ** 2 / 2) + math.exp(-(s - R) ** 2 / 2)) / math.sqrt(2 * math.pi)
+    getr = getattr(stats, "_getr", None)
+    if getr is None:
+        return out
+    try:
+        with warnings.catch_warnings():
+            warnings.simplefilter("error")
+            R = float(getr(n, prob, 1e-12))
+    except RuntimeWarning as e:
+        fail("getr-not-converged", "_getr reaches MAXLOOPS", str(e)[:80], "convergence")
+        return out
+    except Exception as e:  # noqa: BLE001
+        fail("getr-raises", "_getr raises", "%s: %s" % (type(e).__name__, str(e)[:60]), "a number")
+        return out
+    if not abs(g(R)) <= 1e-10:
+        fail("getr-residual", "Phi(1/sqrt n + R) - Phi(1/sqrt n - R) != prob at the returned R", g(R) + prob, prob)
+    # hypotheses of the theorem
+    for x, y in item["xy"]:
+        if g(y) > g(x) + d(x) * (y - x) + 1e-13:
+            fail("spec-hypothesis-newton-concave", "tangent inequality fails: the residual is not concave on R >= 0",
+                 {"x": x, "y": y, "g(y)": g(y), "tangent": g(x) + d(x) * (y - x)}, "g(y) <= g(x) + g'(x)(y - x)")
+    x0 = norm.ppf(prob + (1 - prob) / 2) * (1 + 1 / (2 * n))
+    xs = [x0]
+    for _ in range(12):
+        xs.append(xs[-1] - g(xs[-1]) / d(xs[-1]))
+    if xs[1] < 0:
+        fail("spec-hypothesis-newton-first-iterate", "the first Newton iterate is negative", xs[1], ">= 0")
+    elif any(b < a - 1e-13 for a, b in zip(xs[1:-1], xs[2:])) or any(x > R + 1e-11 for x in xs[1:]):
+        fail("getr-newton-not-monotone", "iterates after the first are not nondecreasing / exceed the root", xs, "monotone, <= %r" % R)
+    return out
+
+
+def _o_nctasym(stats, item):
+    """the two clauses of NctAsym (hypotheses of ksingle_tendsto / ksingle_ge_normal) measured with scipy"""
+    from scipy.stats import nct
+
+    out = []
+    c, df, nc = item["c"], item["df"], item["nc"]
+    with warnings.catch_warnings():
+        warnings.simplefilter("ignore")
+        q = float(nct.ppf(c, df, nc))
+        if math.isfinite(q):
+            B = 4 / min(c, 1 - c) + 4
+            if not abs(q - nc) <= B * (1 + abs(nc) / math.sqrt(df)):
+                out.append({"family": "spec-hypothesis-nct-near", "what": "nct quantile is not within B_c (1 + |nc|/sqrt df) of nc",
+                            "input": dict(item), "observed": q, "required": "|q - nc| <= %g" % (B * (1 + abs(nc) / math.sqrt(df)))})
+        if nc >= 0:
+            m = float(nct.cdf(nc, df, nc))
+            if math.isfinite(m) and m > 0.5 + 1e-9:
+                out.append({"family": "spec-hypothesis-nct-median", "what": "P(T <= nc) > 1/2 for nc >= 0", "input": dict(item),
+                            "observed": m, "required": "<= 0.5"})
+    return out
+
+
+def _o_kge(stats, item):
+    """k >= z_p for c >= 1/2, p >= 1/2 at every n >= 2 (ksingle_ge_normal), and the rate of ksingle_rate"""
+    from scipy.stats import norm
+
+    out = []
+    p, c, n = item["p"], item["c"], item["n"]
+    k = _call(stats.ksingle, p, c, n)
+    z = float(norm.ppf(p))
+    if isinstance(k, str) or not math.isfinite(float(k)):
+        return out
+    k = float(k)
+    if c >= 0.5 and p >= 0.5 and k < z - 1e-9 * max(1.0, abs(z)):
+        out.append({"family": "ksingle-limit", "what": "one-sided factor below the normal quantile although c >= 0.5", "input": dict(item),
+                    "observed": k, "required": ">= %r" % z})
+    B = 4 / min(c, 1 - c) + 4
+    if n >= 2 and abs(k - z) > B * (1 / math.sqrt(n) + abs(z) / math.sqrt(n - 1)):
+        out.append({"family": "ksingle-limit", "what": "one-sided factor not within B_c (1/sqrt n + |z_p|/sqrt(n-1)) of the normal quantile",
+                    "input": dict(item), "observed": k, "required": "near %r" % z})
+    return out
+
+
+def _o_dtype(stats, item):
+    """regression guard of F54 / F55 (fix cd7a6f7): integer arguments handed over as 8/16-bit numpy arrays give what python
+    ints give.  Before the fix `_run_brentq` doubled its bracket in the dtype of r (`b = 2 * a` wrapped around) and
+    `np.sqrt` of an int8/uint8 array was a float16."""
+    out = []
+    fn, dt, p, c, v = item["fn"], np.dtype(item["dtype"]), item["p"], item["c"], item["value"]
+    inp = dict(item)
+    arr = np.array([v], dtype=dt)
+    if int(arr[0]) != v:
+        return out
+    if fn in ("ksingle", "kdouble"):
+        ref = _call(getattr(stats, fn), p, c, v)
+        got = _call(getattr(stats, fn), p, c, arr)
+        if isinstance(ref, str):
+            return out
+        if isinstance(got, str) or np.shape(got) != (1,) or not abs(float(got[0]) - float(ref)) <= 1e-9 * max(1.0, abs(float(ref))):
+            out.append({"family": FIXED_F55,
+                        "what": "%s(p, c, n) with n an %s array differs from the same call with python ints" % (fn, dt.name),
+                        "input": inp, "observed": got if isinstance(got, str) else np.asarray(got).tolist(), "required": [float(ref)]})
+        return out
+    which = fn
+    kw = {"c": dict(p=p, n=item.get("n", 50)), "r": dict(p=p, c=c), "n": dict(p=p, c=c), "p": dict(c=c, n=item.get("n", 50))}[which]
+    key = "r" if which in ("c", "n", "p") else "n"
+    ref = _call(stats.order_stats, which, **dict(kw, **{key: v}))
+    got = _call(stats.order_stats, which, **dict(kw, **{key: arr}))
+    if isinstance(ref, str):
+        return out
+    ok = (not isinstance(got, str)) and np.shape(got) == (1,) and abs(float(np.asarray(got)[0]) - float(ref)) <= 1e-9
+    if not ok:
+        out.append({"family": FIXED_F54 if which == "n" else "order-stats-%s-narrow-int-%s-array" % (which, "rank" if key == "r" else "sample-size"),
+                    "what": "order_stats('%s') with %s an %s array differs from the same call with python ints" % (which, key, dt.name),
+                    "input": inp, "observed": got if isinstance(got, str) else np.asarray(got).tolist(), "required": [ref if isinstance(ref, int) else float(ref)]})
+    return out
+
+
 def _run_oracle(stats, item, rng=None):
     kind = item["kind"]
     if kind == "order":
@@ -693,6 +1529,20 @@ def _run_oracle(stats, item, rng=None):
         return _o_klimit(stats, item["p"], item["c"])
     if kind == "broadcast":
         return _o_broadcast(stats, item)
+    if kind == "apicall":
+        return _o_apicall(stats, item)
+    if kind == "kcall":
+        return _o_kcall(stats, item)
+    if kind == "proot":
+        return _o_proot(stats, item)
+    if kind == "newton":
+        return _o_newton(stats, item)
+    if kind == "nctasym":
+        return _o_nctasym(stats, item)
+    if kind == "kge":
+        return _o_kge(stats, item)
+    if kind == "dtype":
+        return _o_dtype(stats, item)
     return []
 
 
@@ -700,12 +1550,36 @@ def search(ctx, hints):
     stats = _stats()
     rng = ctx.rng
     items = []
+    # regression guards F54 / F55 first: integer arguments as narrow numpy arrays (fixed inputs, then the hints)
+    for dt in ("uint8", "int8", "int16", "uint16", "int32"):
+        items.append({"kind": "dtype", "fn": "n", "dtype": dt, "p": 0.99, "c": 0.9, "value": 1})
+        items.append({"kind": "dtype", "fn": "n", "dtype": dt, "p": 0.9, "c": 0.5, "value": rng.randint(1, 5)})
+        for v in (15, 21, rng.randint(2, 100)):
+            items.append({"kind": "dtype", "fn": "ksingle", "dtype": dt, "p": 0.99, "c": 0.9, "value": v})
+            items.append({"kind": "dtype", "fn": "kdouble", "dtype": dt, "p": 0.99, "c": 0.9, "value": v})
+        items.append({"kind": "dtype", "fn": "c", "dtype": dt, "p": 0.9, "c": 0.9, "n": 50, "value": rng.randint(1, 6)})
+        items.append({"kind": "dtype", "fn": "p", "dtype": dt, "p": 0.9, "c": 0.9, "n": 50, "value": rng.randint(1, 6)})
+        items.append({"kind": "dtype", "fn": "r", "dtype": dt, "p": 0.9, "c": 0.9, "value": rng.randint(5, 120)})
     for h in hints[:60]:
         i = h["input"]
-        if i.get("which") in ("r", "n", "c"):
+        if "absent" in i:                        # a disagreement of the `api` stream: the same call, restated on the API
+            items.append({"kind": "apicall", "which": i["which"], "dtypes": i.get("dtypes", {}), **{k: i[k] for k in "pcnr"}})
+        elif i.get("which") in ("r", "n", "c"):
             items.append(dict(i, kind="order"))
         elif i.get("which") in ("ksingle", "kdouble", "newton"):
             items.append({"kind": "kfactor", "p": i["p"], "c": i["c"], "n": i["n"]})
+        elif "shapes" in i:                      # a disagreement of the k-factor array streams
+            arrs = {k: np.asarray(i[k]) for k in "pcn"}
+            items.append({"kind": "kcall", "n_dtype": i.get("n_dtype"), **{k: {"shape": list(a.shape), "values": a.ravel().tolist()} for k, a in arrs.items()}})
+            if i.get("n_dtype") in INT_DTYPES:
+                for nn in np.unique(arrs["n"].ravel())[:3]:
+                    for fn in ("ksingle", "kdouble"):
+                        items.append({"kind": "dtype", "fn": fn, "dtype": i["n_dtype"], "p": float(arrs["p"].ravel()[0]) if arrs["p"].size else 0.9,
+                                      "c": float(arrs["c"].ravel()[0]) if arrs["c"].size else 0.9, "value": int(nn)})
+            for pp in np.unique(arrs["p"].ravel())[:3]:
+                for nn in np.unique(arrs["n"].ravel())[:3]:
+                    items.append({"kind": "kfactor", "p": float(pp), "c": float(arrs["c"].ravel()[0]) if arrs["c"].size else 0.9, "n": int(nn)})
+                    items.append({"kind": "newton", "n": int(nn), "prob": float(pp), "xy": []})
     # base stream ------------------------------------------------------------------
     for cs in _gen_order(ctx, ctx.pick(3000, 12000), ctx.pick(2000, 20000)):
         items.append({"kind": "order", "which": cs[0], "p": cs[1], "c": cs[2], "n": cs[3], "r": cs[4]})
@@ -719,6 +1593,32 @@ def search(ctx, hints):
     for p in (0.9, 0.95, 0.99, 0.99865):
         for c in (0.1, 0.5, 0.75, 0.9, 0.99):
             items.append({"kind": "klimit", "p": p, "c": c})
+    # the decision table of order_stats on scalars: every `which` x every subset of absent arguments
+    for w in ["c", "r", "n", "p", "x", "", "C", "rr"]:
+        for mask in range(16):
+            a = {"p": "0.9", "c": "0.9", "n": "30", "r": "2"}
+            items.append({"kind": "apicall", "which": w, "probe_unknown": True,
+                          **{k: (None if mask >> j & 1 else {"shape": [], "values": [a[k]]}) for j, k in enumerate("pcnr")}})
+    for _ in range(ctx.pick(250, 1200)):
+        items.append(_gen_apicall(rng))
+    for _ in range(ctx.pick(40, 200)):
+        items.append(_gen_kcall(rng))
+    for _ in range(ctx.pick(150, 800)):
+        n = rng.randint(1, 60) if rng.random() < 0.8 else rng.randint(60, 300)
+        r = rng.randint(1, min(n, 8)) if rng.random() < 0.9 else rng.choice([0, n + 1, n + 3])
+        items.append({"kind": "proot", "c": _dec(rng, "c"), "n": n, "r": r})
+    for _ in range(ctx.pick(150, 800)):
+        n = rng.randint(2, 30) if rng.random() < 0.6 else int(10 ** rng.uniform(1.5, 7))
+        prob = rng.choice([0.5, 0.9, 0.95, 0.99, 0.9973, 0.999]) if rng.random() < 0.5 else round(rng.uniform(0.01, 0.9999), 4)
+        items.append({"kind": "newton", "n": n, "prob": prob, "xy": [(rng.uniform(0, 6), rng.uniform(0, 6)) for _ in range(6)]})
+    for _ in range(ctx.pick(150, 800)):
+        c = rng.choice([0.01, 0.05, 0.1, 0.5, 0.9, 0.99, 0.999]) if rng.random() < 0.6 else round(rng.uniform(0.02, 0.98), 3)
+        df = float(int(10 ** rng.uniform(0, 6)))
+        u = rng.random()
+        nc = 0.0 if u < 0.1 else rng.uniform(0, 5) if u < 0.4 else math.sqrt(df + 1) * rng.uniform(0, 3.5) if u < 0.85 else -rng.uniform(0, 50)
+        items.append({"kind": "nctasym", "c": c, "df": df, "nc": nc})
+    for p, c, n in _gen_k(ctx, ctx.pick(150, 800)):
+        items.append({"kind": "kge", "p": p, "c": c, "n": n})
     for it in items:
         ctx.count("oracle:" + it["kind"])
         for f in _run_oracle(stats, it, rng):
